@@ -16,6 +16,8 @@ structure LineOut (σ : Type) where
   /-- a monitor failure: (key, message).  The key identifies the failing input class
   (matched against known_findings.json). -/
   monitor : Option (String × String) := none
+  /-- an informational note (key), counted in the evidence; e.g. `inconclusive` -/
+  note : Option String := none
 
 structure Checker where
   σ : Type
